@@ -144,6 +144,8 @@ def correspondence(rep, ctx):
                         bad += 1
                     break
         rep.notes["mismatches"] = bad
+    from decaylib import mutated_object_block
+    mutated_object_block(rep, ctx, "c02/mutated-object", hp_too=True, nseq=(18 if thorough else 6))
     import synthetic
     synthetic.decay_block(rep, ctx, "c02/synthetic-hp", kinds=("decay",), ndatasets=(6 if thorough else 2), per=3, hp=True)
     symbolic(rep, ctx, gen)
